@@ -202,6 +202,8 @@ class RefDevice:
             return
         if d.get("raw") is not None:
             self._fire("hs_raw")
+            conn.state["desync"] = True
+            conn.hostile_until = conn.net.loop.time() + lat + 1.0
             conn.send(bytes.fromhex(d["raw"]), lat=lat, cuts=self._cuts(d, len(d["raw"]) // 2))
             return
         if d.get("error") or (not ok and not d.get("force_reply")):
@@ -209,6 +211,7 @@ class RefDevice:
                 self._fire("error_packet_hs")
             pkt = codec.v3_encode_plain(self._txc(conn), b"ERROR", codec.T_ERROR)
             conn.send(pkt, lat=lat)
+            conn.hostile_until = max(conn.hostile_until, conn._last_sched)
             return
         nonce = self.next_nonce()
         key = self.key if self.key is not None else bytes(32)
@@ -313,6 +316,7 @@ class RefDevice:
         if d.get("error") and key is not None:
             self._fire("error_packet")
             conn.send(codec.v3_encode_plain(self._txc(conn), b"ERROR", codec.T_ERROR), lat=lat)
+            conn.hostile_until = max(conn.hostile_until, conn._last_sched)
             return
         msgs = []
         for kind in d.get("pre", []):
@@ -346,7 +350,20 @@ class RefDevice:
             m = self._extra(conn, kind, key)
             if m is not None:
                 msgs.append(m)
+        honest = not any(d.get(k) for k in ("raw", "mutate", "byz", "app"))
+        if not honest:
+            conn.state["desync"] = True     # hostile bytes may have broken the stream framing
+        base = len(conn.tx_stream)
         self._transmit(conn, msgs, d, lat)
+        if not honest:
+            conn.hostile_until = max(conn.hostile_until, conn._last_sched)
+        if honest and resp_pkts:
+            # stream span of each well-formed response packet (for the retry-contract oracle)
+            off = base
+            for m in msgs:
+                if m in resp_pkts:
+                    conn.state.setdefault("good_spans", []).append((off, off + len(m)))
+                off += len(m)
         if d.get("dup_late") and resp_pkts:
             self._fire("dup_late")
             for p in resp_pkts:
